@@ -271,6 +271,17 @@ func ScanRepositoryUsingGraph(
 		return HistorySize{}, err
 	}
 
+	// All of the objects that we requested have been read. Make sure
+	// that there are no more, and wait for the `git cat-file`
+	// pipeline to finish so that we notice if it failed:
+	_, ok, err := objectIter.Next()
+	if err != nil {
+		return HistorySize{}, err
+	}
+	if ok {
+		return HistorySize{}, errors.New("more objects read than expected")
+	}
+
 	progressMeter.Start("Processing references: %d")
 	for _, root := range roots {
 		progressMeter.Inc()
